@@ -59,7 +59,11 @@ template <class S> Residual<S> residual_ld(const Csr<S> &A, const std::vector<S>
 template <class S> long double norm2_ld(const std::vector<S> &v) { long double s = 0; for (auto &e : v) s += abs2_ld(to_ld(e)); return std::sqrt(s); }
 
 // 2-norm bounds of A and A^{-1} (exact from a dense SVD when small; rigorous upper bounds otherwise)
-struct Cond { double normA = 0, normAinv = 0; const char *how = ""; double kappa() const { return normA * normAinv; } };
+struct Cond { double normA = 0, normAinv = 0; const char *how = "";
+    double normP = 0;                 // probe estimate of the preconditioner's 2-norm (0 = not measured)
+    double kappa() const { return normA * normAinv; }
+    // conditioning of the call: the iterates live in range(P), their size is governed by max(||A^-1||, ||P||) ||f||
+    double kappa_call() const { return normA * std::max(normAinv, normP); } };
 
 struct CallSpec { SolverCfg cfg; size_t maxiter = 100; int L = 2; double tol = 1e-8; };
 
@@ -74,7 +78,10 @@ struct CallSpec { SolverCfg cfg; size_t maxiter = 100; int L = 2; double tol = 1
 //       part becomes max(1e-6, 100 u kappa) (rounding inside the two P applications)
 //   solvers carrying a recursive residual (cg, bicgstab, bicgstabl, idrs):
 //       |res - true| <= max(1e-3 true, 100 u k kappa_2(A) (1 + ||A|| ||x0|| / ||f||))   (DESIGN.md 5/C01; Greenbaum's bound on the
-//       gap between updated and true residual), left side multiplied by max(1, 4 ||A^-1||).
+//       gap between updated and true residual), left side multiplied by max(1, 4 ||A^-1||, ||P||).
+//   kappa of the *call*: ||A|| max(||A^-1||, ||P||) with ||P|| a probe estimate -- the iterates live in range(P); a preconditioner
+//   that amplifies (e.g. a Chebyshev smoother on a strongly non-symmetric matrix, observed gain 1e10) makes the call ill-conditioned
+//   whatever kappa(A) is, and the bounds scale with it (such calls are counted, see calls_with_preconditioner_norm_above_10x_inverse_norm).
 //   A non-finite reported value is truthful iff the true value is non-finite as well.
 template <class S, class ApplyP>
 bool check_truthful(Case &c, const CallSpec &cs, const Csr<S> &A, const std::vector<S> &f, const std::vector<S> &x0, const std::vector<S> &x,
@@ -101,16 +108,17 @@ bool check_truthful(Case &c, const CallSpec &cs, const Csr<S> &A, const std::vec
     if (!tfinite) { c.check(false, name + ":finite-report-for-nonfinite-residual", "solver reported a finite residual but the returned x has a non-finite true residual", J().n("reported", res).n("iters", iters)); return false; }
     long double nx0 = norm2_ld(x0);
     long double dr = 8.0L * u * (R.maxrow + 3) * (R.absAx + R.nf);
-    long double leftamp = cs.cfg.left ? std::max<long double>(1.0L, 4.0L * K.normAinv) : 1.0L;
+    // left side: the compared values are P applied to residual vectors, hence scaled by ||P|| (>= the probe estimate; a useful P has ||P|| ~ ||A^-1||)
+    long double leftamp = cs.cfg.left ? std::max<long double>(1.0L, std::max<long double>(4.0L * K.normAinv, K.normP)) : 1.0L;
     long double rel, flo;
-    if (cs.cfg.explicit_res) { rel = cs.cfg.left ? std::max<long double>(1e-6L, 100.0L * u * K.kappa()) : 1e-6L; flo = dr / R.nf * leftamp; }
-    else { rel = 1e-3L; flo = 100.0L * u * (iters + 1) * K.kappa() * (1.0L + K.normA * nx0 / R.nf) * leftamp; }
+    if (cs.cfg.explicit_res) { rel = cs.cfg.left ? std::max<long double>(1e-6L, 100.0L * u * K.kappa_call()) : 1e-6L; flo = dr / R.nf * leftamp; }
+    else { rel = 1e-3L; flo = 100.0L * u * (iters + 1) * K.kappa_call() * (1.0L + K.normA * nx0 / R.nf) * leftamp; }
     long double bound = std::max(rel * tv, flo), diff = fabsl((long double)res - tv);
     if (!(std::isfinite((double)bound))) { fprintf(stderr, "c01 oracle: non-finite bound (kappa=%g)\n", K.kappa()); exit(3); }
     obs_max(std::string("max_mismatch_over_bound_") + (cs.cfg.explicit_res ? "explicit" : "recursive") + (cs.cfg.left ? "_left" : "_right"), (double)(diff / bound));
     if (tv > 0) obs_max("max_rel_discrepancy_where_true_above_1e-6", tv > 1e-6L ? (double)(diff / tv) : 0.0);
     ok &= c.check(diff <= bound, name + ":residual-mismatch", "reported residual differs from the true relative residual of the returned x beyond the rounding bound",
-                  J().n("reported", res).n("true", (double)tv).n("bound", (double)bound).n("iters", iters).n("tol", cs.tol).n("maxiter", cs.maxiter).n("kappa_bound", K.kappa()));
+                  J().n("reported", res).n("true", (double)tv).n("bound", (double)bound).n("iters", iters).n("tol", cs.tol).n("maxiter", cs.maxiter).n("kappa_call", K.kappa_call()).n("normP_probe", K.normP));
     return ok;
 }
 
